@@ -2,7 +2,11 @@
 
 package livesql
 
-import "github.com/samsarahq/thunder/sqlgen"
+import (
+	"github.com/samsarahq/thunder/logger"
+	"github.com/samsarahq/thunder/sqlgen"
+	"github.com/siddontang/go-mysql/replication"
+)
 
 // VerifParseBinlogRow decodes a change-log row whose columns are in the struct's column order.
 func VerifParseBinlogRow(table *sqlgen.Table, row []interface{}) (interface{}, error) {
@@ -11,4 +15,31 @@ func VerifParseBinlogRow(table *sqlgen.Table, row []interface{}) (interface{}, e
 		cm.source = append(cm.source, i)
 	}
 	return parseBinlogRow(table, row, cm)
+}
+
+// VerifNewBinlog builds a Binlog around an in-process event stream (no replication connection).
+func VerifNewBinlog(ldb *LiveDB, database string, streamer *replication.BinlogStreamer) *Binlog {
+	return &Binlog{
+		db:            ldb.DB,
+		database:      database,
+		tracker:       ldb.tracker,
+		streamer:      streamer,
+		tableVersions: make(map[string]uint64),
+		columnMaps:    make(map[string]*columnMap),
+		logger:        logger.New(),
+	}
+}
+
+// VerifMarkClosed does what Close does to the poll loop's state, without a syncer.
+func (b *Binlog) VerifMarkClosed() {
+	b.mu.Lock()
+	b.closed = true
+	b.mu.Unlock()
+}
+
+// VerifTracked is the number of live query dependencies currently registered.
+func (ldb *LiveDB) VerifTracked() int {
+	ldb.tracker.mu.Lock()
+	defer ldb.tracker.mu.Unlock()
+	return len(ldb.tracker.resources)
 }
